@@ -1,0 +1,85 @@
+//! Verification hooks, compiled only with the cargo feature `verif` (off by default).
+//!
+//! This module forwards to crate-private items so that an out-of-tree harness crate can
+//! call the real implementation (nothing here re-implements darklua logic). Besides
+//! forwarders it holds the bodies of the few symbolic-execution stubs that must name
+//! crate-private types; those read answers chosen by the harness from the statics below.
+
+use std::path::Path;
+
+use crate::rules::RuleMetadata;
+use crate::utils::FilterPattern;
+use crate::Configuration;
+
+pub mod generator_utils {
+    pub use crate::generator::utils::{
+        break_concat, break_equal, break_long_string, break_minus, break_variable_arguments,
+        count_new_lines, ends_with_prefix, should_break_with_space, starts_with_parenthese,
+        starts_with_table, verif_escape as escape, verif_get_quote_symbol as get_quote_symbol,
+        verif_needs_escaping as needs_escaping,
+        verif_needs_quoted_string as needs_quoted_string,
+        verif_write_long_bracket as write_long_bracket, verif_write_quoted as write_quoted,
+        write_number, write_string,
+    };
+}
+
+pub fn is_single_line_comment(content: &str) -> bool {
+    crate::generator::verif_is_single_line_comment(content)
+}
+
+pub fn is_valid_identifier(identifier: &str) -> bool {
+    crate::process::utils::is_valid_identifier(identifier)
+}
+
+// ---------------------------------------------------------------------------------------------
+// file and rule filters
+
+/// Answers handed out by [`filter_matches_stub`], indexed by the first byte of the pattern text
+/// minus `b'0'`.
+pub static mut FILTER_MATCH_ANSWERS: [bool; 8] = [false; 8];
+
+/// Stub body for `FilterPattern::matches` (the glob engine is the environment of the filter
+/// logic): returns the answer the harness chose for this pattern.
+#[allow(private_interfaces, static_mut_refs)]
+pub fn filter_matches_stub(pattern: &FilterPattern, _path: &Path) -> bool {
+    let index = (pattern.original().as_bytes()[0] - b'0') as usize;
+    unsafe { FILTER_MATCH_ANSWERS[index] }
+}
+
+unsafe fn opaque_patterns(first: u8, count: usize) -> Vec<FilterPattern> {
+    let mut patterns = Vec::new();
+    let mut index = 0;
+    while index < count {
+        let name = String::from((b'0' + first + index as u8) as char);
+        patterns.push(FilterPattern::verif_opaque(name));
+        index += 1;
+    }
+    patterns
+}
+
+/// Rule metadata with `apply` + `skip` opaque patterns named "0", "1", ... (apply first).
+///
+/// # Safety
+/// The result must be forgotten, never dropped, and `FilterPattern::matches` must be stubbed.
+pub unsafe fn opaque_rule_metadata(apply: usize, skip: usize) -> RuleMetadata {
+    RuleMetadata::verif_from_filters(opaque_patterns(0, apply), opaque_patterns(apply as u8, skip))
+}
+
+pub fn rule_metadata_should_apply(metadata: &RuleMetadata, path: &Path) -> bool {
+    metadata.should_apply(path)
+}
+
+/// # Safety
+/// Same contract as [`opaque_rule_metadata`].
+pub unsafe fn set_opaque_configuration_filters(
+    configuration: &mut Configuration,
+    apply: usize,
+    skip: usize,
+) {
+    configuration
+        .verif_set_filters(opaque_patterns(0, apply), opaque_patterns(apply as u8, skip));
+}
+
+pub fn configuration_should_apply_rule(configuration: &Configuration, path: &Path) -> bool {
+    configuration.should_apply_rule(path)
+}
